@@ -56,6 +56,8 @@ def judgeApi (payload impl : String) : Verdict :=
   let ok := match Sx.parse payload, Sx.parse impl with
     | some (.list [.atom "time", _, want]), some (.list [.atom "time", a, b]) =>
       a.toStr == want.toStr && b.toStr == want.toStr
+    | some (.list [.atom "dt", _, _, want]), some (.list [.atom "time", a, b]) =>
+      a.toStr == want.toStr && b.toStr == want.toStr
     | some (.list (.atom "q" :: _)), some (.list [.atom "q", .list [.atom "ref", rt, rl], .list [.atom "apply", a1, a2],
         .list [.atom "prep", p1t, p1l, p2t, p2l]]) =>
       -- a precompute error makes Apply / PrepareQuery report an error too; otherwise all agree
